@@ -422,6 +422,12 @@ class Embedding(Op):
         idx_shape = _lead(rng, s[2:]) or [s[2]]
         padding_idx = rng.choice([None, None, 0, V - 1, -1, rng.randrange(V)])
         max_norm = rng.choice([None, None, None, 0.5, 2.0, 100.0])
+        if rng.random() < 0.25:
+            # boundary: exactly as many indices as rows, so that the weight's backward scale is exactly 1
+            a_, b_ = rng.choice([(2, 3), (3, 4), (2, 5), (1, 7), (3, 3)])
+            V, idx_shape = a_ * b_, [a_, b_]
+            padding_idx = rng.choice([None, 0, V - 1])
+            max_norm = rng.choice([0.5, 0.5, 2.0, None])
         return {"V": V, "D": D, "idx_shape": idx_shape, "padding_idx": padding_idx, "max_norm": max_norm,
                 "norm_type": rng.choice([2.0, 2.0, 1.0, 3.0]), "avoid_padding": rng.random() < 0.5}
 
